@@ -10,6 +10,8 @@
 //!            by vlib/svgparse.py (expat): height, style rules, spans per line
 //!   svgtext <pal> <fg> <bg> <flag> <input>            -> the text of the foreground spans,
 //!            line by line, recovered the same way
+//!   svgcls  <pal> <fg> <bg> <flag> <input>            -> the (foreground classes, background
+//!            class, text) pieces of every row, recovered the same way
 use crate::{hex, unhex, Answer};
 use anstyle::{Ansi256Color, AnsiColor, Color, RgbColor};
 use anstyle_svg::{Palette, Term, VGA, WIN10_CONSOLE};
@@ -94,6 +96,7 @@ pub fn dispatch(kind: &str, f: &[&str]) -> Option<Answer> {
         "svg" | "svgraw" => None,
         "svgdoc" => Some("doc"),
         "svgtext" => Some("text"),
+        "svgcls" => Some("cls"),
         _ => return None,
     };
     Some(match render(f) {
